@@ -58,6 +58,17 @@ def loc(t: Term) -> Term:
         b = loc(t[1])
         if b[0] == "attr" and b[2] == "parts":
             return ("attr", ("PARENT", b[1]), "parts")
+    if tag == "slice" and is_const(t[4], None) and is_const(t[2], None) and t[3][0] == "binop" and t[3][1] == "-":
+        # `text[: len(text) - len(p.suffix)]` where text is the text of p (or of p relative to something): p without its suffix
+        whole, cut = t[3][2], t[3][3]
+        if all(x[0] == "call" and x[1] == ("builtin", "len") and len(x[2]) == 1 for x in (whole, cut)):
+            b = loc(t[1])
+            if loc(whole[2][0]) == b and _is_suffix_of(loc(cut[2][0]), b):
+                return ("NOSUF", b)
+    if tag == "mcall" and t[2] == "removesuffix" and len(t[3]) == 1:
+        b = loc(t[1])
+        if _is_suffix_of(loc(t[3][0]), b):
+            return ("NOSUF", b)
     if tag == "attr":
         if t[2] == "parent":
             return ("PARENT", loc(t[1]))
@@ -82,6 +93,20 @@ def loc(t: Term) -> Term:
         if len(alts) == 1:
             return alts.pop()
     return t
+
+
+def _is_suffix_of(suffix: Term, l: Term) -> bool:
+    """`suffix` is `.suffix` of the location `l` or of the path `l` is relative to something (same last component)."""
+    if suffix[0] != "attr" or suffix[2] != "suffix":
+        return False
+    owner = suffix[1]
+    while True:
+        if strip_abs(owner) == strip_abs(l):
+            return True
+        if l[0] == "REL":
+            l = l[1]
+        else:
+            return False
 
 
 def strip_abs(l: Term) -> Term:
@@ -200,7 +225,7 @@ def _tokens(t: Term) -> "list[tuple[str, Term]] | None":
         # everything before the last '.': the name without its last component (for names with at least two components)
         inner = _tokens(t[1][1])
         return None if inner is None else _drop_last(inner)
-    if tag == "mcall" and t[2] == "replace" and len(t[3]) == 2 and is_const(t[3][1], ".") and (t[3][0] in (("lib", "os.sep"), ("lib", "os.path.sep")) or is_const(t[3][0], "/")):
+    if _separators_to_dots(t):
         inner = t[1]
         if inner[0] == "call" and inner[1] == ("builtin", "str") and len(inner[2]) == 1 or inner[0] == "mcall" and inner[2] == "as_posix" or inner[0] == "call" and inner[1][0] == "lib" and inner[1][1] in ("os.fspath", "os.path.relpath", "os.path.dirname", "os.path.splitext"):
             return [("parts", loc(inner))]
@@ -216,6 +241,26 @@ def _tokens(t: Term) -> "list[tuple[str, Term]] | None":
     if tag in ("param", "attr", "call", "mcall", "elem", "idx", "loopvar"):
         return [("item", t)]
     return None
+
+
+_SEP = (("lib", "os.sep"), ("lib", "os.path.sep"))
+
+
+def _separators_to_dots(t: Term) -> bool:
+    """`text.replace(os.sep, ".")` and `text.translate(str.maketrans(os.sep, "."))`."""
+    if t[0] != "mcall":
+        return False
+    if t[2] == "replace" and len(t[3]) == 2 and is_const(t[3][1], ".") and (t[3][0] in _SEP or is_const(t[3][0], "/")):
+        return True
+    if t[2] == "translate" and len(t[3]) == 1:
+        table = unbox(t[3][0])
+        if table[0] == "mcall" and table[2] == "maketrans" and table[1] == ("builtin", "str") and len(table[3]) == 2 and is_const(table[3][1], ".") and (table[3][0] in _SEP or is_const(table[3][0], "/")):
+            return True
+        if table[0] == "dict" and len(table[1]) == 1:
+            k, v = table[1][0]
+            if is_const(v, ".") and k[0] == "call" and k[1] == ("builtin", "ord") and len(k[2]) == 1 and (k[2][0] in _SEP or is_const(k[2][0], "/")):
+                return True
+    return False
 
 
 def _joined(arg: Term, sep_owner: Term) -> "list[tuple[str, Term]] | None":
